@@ -34,6 +34,15 @@ def r_K4():
         return pp.pformat(pp.trailing_comment([], 'x')) == '[]' or '#' not in pp.pformat([pp.trailing_comment(1, 'x')])
 
 
+def r_K3():
+    import sec_cost
+    import prettyprinter as pp
+    f = sec_cost.FAMILIES['commented_dict_values']
+    a, _ = sec_cost.count_steps(f(6))
+    b, _ = sec_cost.count_steps(f(12), budget=3_000_000)
+    return b > 20 * a
+
+
 def r_K2():
     import prettyprinter as pp
     return pp.pformat([None, True], depth=1) == '[None, True]'
